@@ -338,6 +338,9 @@ def run(ctx, only=None):
     try:
         stages = [("corpus", lambda: corpus(ctx, gs)),
                   ("corr", lambda: correspondence(ctx, gs, gsp, check_arg_in_bounds, drv, rng, thorough, corr_fail) if drv is not None else None),
+                  ("dims", lambda: probe_dims(ctx, gs, rng, thorough)),
+                  ("even", lambda: probe_even(ctx, gs, rng, thorough, drv, corr_fail)),
+                  ("history", lambda: probe_history(ctx, gs, rng, thorough)),
                   ("cor", lambda: probe_cor(ctx, gs, rng, thorough)),
                   ("spectrum", lambda: probe_spectrum(ctx, gs, rng, thorough)),
                   ("eig", lambda: probe_eig(ctx, gs, rng, thorough)),
@@ -483,6 +486,305 @@ def configs(gs, rng, thorough, limit, ulp=True):
                 yield name, cfg, m0.dim, sig, p
 
 
+def probe_dims(ctx, gs, rng, thorough):
+    """class x construction-option cells and dim-setter histories: a model object whose present dimension its own class
+    rejects (check_dim(model.dim) False) must have produced the invalid-dimension warning on the way there.  On a missing
+    warning the (class, options) cell is the failing input; for compact classes the negative lobe of the radial spectrum in
+    that dimension and an explicit weighted lattice (evaluated with the object's own covariance) are attached."""
+    cells = [dict(dim=d) for d in (1, 2, 3, 4, 5)]
+    cells += [dict(spatial_dim=sd, temporal=True) for sd in (1, 2, 3, 4)] + [dict(spatial_dim=sd) for sd in (1, 2, 3, 4)]
+    cells += [dict(latlon=True), dict(latlon=True, temporal=True), dict(latlon=True, dim=1), dict(latlon=True, dim=2, temporal=True),
+              dict(latlon=True, temporal=True, spatial_dim=2), dict(latlon=True, dim=4), dict(dim=2, temporal=True)]
+    for name in NAMES:
+        for cell in cells:
+            hist = [None] + ([1, 2, 3, 4] if set(cell) == {"dim"} else [3] if "latlon" in cell else [])   # then: model.dim = d (setter)
+            for setd in hist:
+                case = dict(probe="dims", cls=name, cell=cell, then_set_dim=setd)
+
+                def one():
+                    m, warned, _ = make(gs, name, **cell)
+                    if setd is not None:
+                        with warnings.catch_warnings(record=True) as w:
+                            warnings.simplefilter("always")
+                            try:
+                                m.dim = setd
+                            except ValueError:
+                                return                                  # bounds of the new dimension reject the present arguments
+                        warned = any("is not appropriate for this model" in str(x.message) for x in w)
+                    ok_dim = bool(m.check_dim(m.dim))
+                    ctx.count(("dims", name, tuple(sorted(cell.items())), setd), hist=dict(stage="probe-dims", cls=name))
+                    if not ok_dim and not warned:
+                        wit = None
+                        if name in COMPACT and m.dim >= 2:
+                            ell = float(m.len_rescaled)
+                            cor = lambda r: m.correlation(r)
+                            s0q, _ = radial_spectrum_quad(cor, m.dim, 1e-3 / ell, rng_hi=ell)
+                            ks = np.linspace(0.5, 40.0, 80)
+                            vals = [radial_spectrum_quad(cor, m.dim, k / ell, rng_hi=ell)[0] for k in ks]
+                            i = int(np.argmin(vals))
+                            if vals[i] < -1e-7 * s0q:
+                                from scipy import optimize
+                                res = optimize.minimize_scalar(lambda k: radial_spectrum_quad(cor, m.dim, k / ell, rng_hi=ell)[0],
+                                                               bounds=(max(0.1, ks[i] - 0.8), ks[i] + 0.8), method="bounded")
+                                wit = dict(dimension=int(m.dim), k_times_ell=float(res.x), relative_spectrum=float(res.fun / s0q),
+                                           lattice=lattice_witness(m, m.dim, float(res.x) / ell, ell))
+                        ctx.violation("probe: every dimension a model object ends up in is announced (invalid-dimension warning)",
+                                      "%s(%s)%s has dim = %d, which %s.check_dim rejects, but no 'Dimension %d is not appropriate' warning was "
+                                      "raised%s" % (name, cell, "" if setd is None else " then model.dim = %d" % setd, m.dim, name, m.dim,
+                                                    "; its %d-D radial spectrum is %.2e S(0) at k = %.2f/len and the explicit %d-point lattice "
+                                                    "has Rayleigh quotient %.3e" % (m.dim, wit["relative_spectrum"], wit["k_times_ell"],
+                                                                                    wit["lattice"]["n_points"], wit["lattice"]["rayleigh_quotient"])
+                                                    if wit else ""),
+                                      dict(case, model_dim=int(m.dim), check_dim=ok_dim, warned=warned, witness=wit),
+                                      key="dim-warning-missing:%s:%s:%s" % (name, sorted(cell.items()), setd))
+                guarded(ctx, "probe: dimension cells", name, cell, ("cell",), case, one)
+
+
+SIGNED = np.array([-1e3, -37.0, -2.5, -1.0, -0.999, -0.5, -0.1, -1e-3, -1e-8, -1e-12, 0.0])
+
+
+def fresh_like(gs, m):
+    """a new object built from the PRESENT public parameter values of m"""
+    kw = dict(var=m.var, len_scale=m.len_scale, nugget=m.nugget, rescale=m.rescale, temporal=m.temporal, latlon=m.latlon,
+              geo_scale=m.geo_scale)
+    if m.latlon:
+        if m.temporal:
+            kw["anis"] = float(m.anis[-1])
+    else:
+        kw["dim"] = m.dim
+        if m.dim > 1:
+            kw["anis"] = [float(a) for a in m.anis]
+            kw["angles"] = [float(a) for a in m.angles]
+    kw.update({k: float(getattr(m, k)) for k in m.opt_arg})
+    return make(gs, m.name, **kw)[0]
+
+
+def evaluations(m, r):
+    """every public evaluation function at the lags r (1-D array, any sign) -> dict name -> array"""
+    out = dict(correlation=m.correlation(r), covariance=m.covariance(r), variogram=m.variogram(r),
+               cov_nugget=m.cov_nugget(r), vario_nugget=m.vario_nugget(r))
+    for ax in range(m.dim if not m.latlon else 1):
+        out["cor_axis%d" % ax] = m.cor_axis(r, axis=ax)
+        out["cov_axis%d" % ax] = m.cov_axis(r, axis=ax)
+        out["vario_axis%d" % ax] = m.vario_axis(r, axis=ax)
+    if m.latlon:
+        out["cor_yadrenko"] = m.cor_yadrenko(r)
+        out["cov_yadrenko"] = m.cov_yadrenko(r)
+        out["vario_yadrenko"] = m.vario_yadrenko(r)
+    else:
+        for ax in range(m.dim):
+            pos = np.zeros((m.dim, len(r)))
+            pos[ax] = r
+            out["cor_spatial%d" % ax] = m.cor_spatial(tuple(pos))
+            out["cov_spatial%d" % ax] = m.cov_spatial(tuple(pos))
+            out["vario_spatial%d" % ax] = m.vario_spatial(tuple(pos))
+    return {k: np.asarray(v, dtype=float) for k, v in out.items()}
+
+
+def probe_even(ctx, gs, rng, thorough, drv, fail):
+    """evenness in the lag (part of 'valid covariance'; the model side is a function of |r|): every public evaluation function
+    at -r equals its value at r, signed 1-D transect differences give a symmetric matrix without negative eigenvalue;
+    for the nine elementary classes the extracted correlation/covariance/variogram wrapper is run at the signed lags too"""
+    stage = "probe: evenness in the lag of every public evaluation function"
+    for name in NAMES:
+        ci = NAMES.index(name)
+        for cfg in [dict(dim=1), dict(dim=3), dict(latlon=True)] + ([dict(dim=2), dict(spatial_dim=2, temporal=True)] if thorough else []):
+            m0, warned, _ = make(gs, name, **cfg)
+            if warned:
+                continue
+            for sig, p in param_sets(m0, rng, name, 6 if thorough else 3, special=thorough):
+                L = float(rng.choice([0.5, 1.0, 4.0]))
+                kw = dict(len_scale=L, var=float(rng.choice([1.0, 2.5])), nugget=float(rng.choice([0.0, 0.3])))
+                if m0.dim > 1 and not m0.latlon:
+                    kw["anis"] = [float(x) for x in 10.0 ** rng.uniform(-0.5, 0.5, size=m0.dim - 1)]
+                case = dict(probe="even", cls=name, cfg=cfg, params=p, model=kw)
+
+                def one():
+                    m, _, _ = make(gs, name, **cfg, **kw, **p)
+                    r = SIGNED * float(m.len_rescaled)
+                    if m.latlon:
+                        r = r[np.abs(r) <= np.pi * m.geo_scale]
+                    neg, pos = evaluations(m, r), evaluations(m, -r)
+                    ctx.count(("even", name, cfg_tag(cfg) if "latlon" not in cfg else "latlon", sig), hist=dict(stage="probe-even", cls=name))
+                    for fn in neg:
+                        a, b = neg[fn], pos[fn]
+                        bad = ~((a == b) | (np.isnan(a) & np.isnan(b)) | (np.abs(a - b) <= 1e-13 * (np.abs(b) + m.var)))
+                        if bad.any():
+                            i = int(np.argmax(bad))
+                            report(ctx, stage, "%s(%s, %s, %s).%s(%r) = %r but at %r it is %r" % (
+                                name, cfg, p, kw, fn, float(r[i]), float(a[i]), float(-r[i]), float(b[i])),
+                                dict(case, function=fn, r=C.fhex(r[i]), value=repr(float(a[i])), value_at_abs=repr(float(b[i]))),
+                                name, cfg if "latlon" not in cfg else dict(dim=3), sig, "not-even:" + fn)
+                            break
+                    # signed transect differences: symmetric matrix, no negative eigenvalue
+                    x = np.sort(rng.uniform(-2, 2, 24)) * float(m.len_rescaled)
+                    if m.latlon:
+                        x = x / (2 * float(m.len_rescaled)) * min(float(m.len_rescaled), m.geo_scale)
+                    Cm = np.asarray(m.covariance(x[:, None] - x[None, :]), dtype=float)
+                    asym = float(np.max(np.abs(Cm - Cm.T))) if np.all(np.isfinite(Cm)) else float("nan")
+                    ev = min_eig(Cm)
+                    if not (asym <= 1e-13 * m.var) or not (ev >= -EIG_TOL * len(x) * m.var):
+                        report(ctx, stage, "%s(%s, %s, %s): covariance of the signed differences of a 1-D transect: asymmetry %r, min eigenvalue %r" % (
+                            name, cfg, p, kw, asym, ev), dict(case, transect=[C.fhex(v) for v in x], asymmetry=repr(asym), min_eig=repr(ev)),
+                            name, cfg if "latlon" not in cfg else dict(dim=3), sig, "signed-transect")
+                    # extracted wrapper (correlation_from_cor / covariance / variogram) at the signed lags
+                    if drv is not None and name in ELEMENTARY:
+                        par = float(p.get("alpha", p.get("nu", 0.0)))
+                        for rr in r:
+                            mod = drv.call("elem", ("n", ci), par, float(m.len_rescaled), float(m.var), float(m.nugget), float(rr))
+                            impl = [float(np.asarray(f(np.array([rr])))[0]) for f in (m.correlation, m.covariance, m.variogram)]
+                            if not C.close(np.array(impl), np.asarray(mod), rtol=1e-9, scale=max(1.0, m.var)):
+                                fail("correlation/covariance/variogram wrapper of %s %s at signed lag r=%r: model %s impl %s" % (
+                                    name, p, float(rr), np.asarray(mod).tolist(), impl), dict(cls=name, params=p, r=C.fhex(rr)))
+                                break
+                guarded(ctx, stage, name, cfg if "latlon" not in cfg else dict(dim=3), sig, case, one)
+
+
+KEY_STALE_BOUNDS = "dim-setter:stale-dim-dependent-default-bounds"
+
+
+def stale_bounds(ctx, gs, m, name, cfg, ops, rng):
+    """after a dim assignment: do the present optional arguments still satisfy the class's bounds FOR THE PRESENT DIMENSION?
+    (set_dim does not refresh default_opt_arg_bounds(): known finding, shared with C14).  Reports the object with the minimum
+    eigenvalue of a covariance matrix as evidence and tells the caller to drop the object."""
+    for k, bd in m.default_opt_arg_bounds().items():
+        v = float(getattr(m, k))
+        t = bd[2] if len(bd) > 2 else "cc"
+        inside = (v >= bd[0] if t[0] == "c" else v > bd[0]) and (v <= bd[1] if t[1] == "c" else v < bd[1])
+        if not inside:
+            X = point_set(rng, "uniform", m.dim, 60, float(m.len_rescaled))
+            ev = min_eig(cov_matrix_spatial(m, X))
+            ctx.violation("probe: histories (dim setter)",
+                          "%s(%s) after %s: dim = %d, %s = %r lies outside the class's bounds %s for this dimension, yet no error / warning "
+                          "(installed bounds still %s); min eigenvalue on 60 uniform points: %r" % (
+                              name, cfg, ops, m.dim, k, v, list(bd), list(m.opt_arg_bounds[k]), ev),
+                          dict(probe="history", cls=name, cfg=cfg, ops=ops, arg=k, value=v, class_bounds=list(bd), min_eig=repr(ev),
+                               points=[[C.fhex(x) for x in row] for row in X]), key=KEY_STALE_BOUNDS)
+            return True
+    return False
+
+
+def probe_history(ctx, gs, rng, thorough):
+    """operation sequences on ONE model object (evaluate, change a parameter in place by its setter / set_arg_bounds /
+    fit_variogram / dim setter, evaluate again ...): after every step all public evaluation functions (and analytic
+    spectral densities) must equal those of a FRESH object built from the present parameter values -- the theorems
+    speak about functions of the present parameters only; a cached intermediate is a hidden extra parameter"""
+    stage = "probe: results are a function of the present parameters (histories vs fresh object)"
+    nseq = 6 if thorough else 3
+    for name in NAMES:
+        for cfg in [dict(dim=1), dict(dim=2), dict(dim=3)] + ([dict(latlon=True), dict(spatial_dim=2, temporal=True)] if thorough else []):
+            m0, warned, _ = make(gs, name, **cfg)
+            if warned:
+                continue
+            for seq in range(nseq):
+                log_ops = []
+                case = dict(probe="history", cls=name, cfg=cfg, ops=log_ops)
+
+                def compare(m, where):
+                    f = fresh_like(gs, m)
+                    r = np.array([0.0, 1e-6, 0.05, 0.3, 0.7, 0.999, 1.0, 1.3, 2.5, 10.0]) * float(m.len_rescaled)
+                    if m.latlon:
+                        r = r[r <= np.pi * m.geo_scale]
+                    a, b = evaluations(m, r), evaluations(f, r)
+                    if name in ANALYTIC:
+                        k = np.array([0.0, 0.1, 0.7, 1.5, 4.0]) / float(m.len_rescaled)
+                        a["spectral_density"] = np.asarray(m.spectral_density(k), dtype=float)
+                        b["spectral_density"] = np.asarray(f.spectral_density(k), dtype=float)
+                    ctx.count(("history", name, cfg_tag(cfg) if "latlon" not in cfg else "latlon", seq, len(log_ops)),
+                              hist=dict(stage="probe-history", cls=name, steps=len(log_ops)))
+                    for fn in a:
+                        if not C.close(a[fn], b[fn], rtol=1e-12, scale=np.abs(b[fn]) + 1e-3 * max(1.0, f.var)):
+                            i = int(np.argmax(np.abs(a[fn] - b[fn])))
+                            ev = None if m.latlon else min(min_eig(cov_matrix_spatial(m, point_set(rng, kind, m.dim, 40, float(m.len_rescaled))))
+                                                           for kind in ("lattice", "uniform", "cluster", "lattice"))
+                            report(ctx, stage, "%s(%s) after %s: %s differs from a fresh %s with the present parameters %s at entry %d: %r vs %r%s" % (
+                                name, cfg, log_ops, fn, name, {k: getattr(m, k) for k in m.opt_arg}, i, float(a[fn][i]), float(b[fn][i]),
+                                "" if ev is None else "; most negative eigenvalue over four ~40-point covariance matrices (lattice, uniform, cluster) of the used object: %r" % ev),
+                                dict(case, ops=list(log_ops), function=fn, value=repr(float(a[fn][i])), fresh=repr(float(b[fn][i])), min_eig=repr(ev)),
+                                name, cfg if "latlon" not in cfg else dict(dim=3), ("history",), "stale:" + fn)
+                            return False
+                    return True
+
+                def one():
+                    m, _, _ = make(gs, name, **cfg)
+                    compare(m, "new")                                   # first evaluation (fills any cache)
+                    for step in range(int(rng.integers(3, 7))):
+                        b = m.opt_arg_bounds
+                        ops = ["len_scale", "var", "nugget", "rescale"] + list(m.opt_arg) * 3 + (["anis", "angles"] if m.dim > 1 and not m.latlon else [])
+                        ops += ["set_arg_bounds", "fit"] if m.opt_arg else ["fit"]
+                        if not m.latlon and not m.temporal:
+                            ops += ["dim"]
+                        op = str(rng.choice(ops))
+                        try:
+                            if op in m.opt_arg:
+                                bd = b[op]
+                                lo, hi = float(bd[0]), float(bd[1]) if np.isfinite(bd[1]) else float(bd[0]) + 3.0
+                                v = float(rng.choice([lo + (hi - lo) * rng.uniform(0.02, 0.98), lo + (hi - lo) * 10.0 ** rng.uniform(-2, -0.3)]))
+                                log_ops.append("%s = %r" % (op, v))
+                                setattr(m, op, v)
+                            elif op in ("len_scale", "var", "rescale"):
+                                v = float(10.0 ** rng.uniform(-0.7, 0.9))
+                                log_ops.append("%s = %r" % (op, v))
+                                setattr(m, op, v)
+                            elif op == "nugget":
+                                v = float(rng.choice([0.0, 0.2, 1.5]))
+                                log_ops.append("nugget = %r" % v)
+                                m.nugget = v
+                            elif op == "anis":
+                                v = [float(x) for x in 10.0 ** rng.uniform(-0.6, 0.6, size=m.dim - 1)]
+                                log_ops.append("anis = %r" % v)
+                                m.anis = v
+                            elif op == "angles":
+                                v = [float(x) for x in rng.uniform(-3, 3, size=len(m.angles))]
+                                log_ops.append("angles = %r" % v)
+                                m.angles = v
+                            elif op == "dim":
+                                d = int(rng.choice([1, 2, 3]))
+                                log_ops.append("dim = %d" % d)
+                                with warnings.catch_warnings():
+                                    warnings.simplefilter("ignore")
+                                    m.dim = d
+                                if not m.check_dim(m.dim):
+                                    return
+                                if stale_bounds(ctx, gs, m, name, cfg, list(log_ops), rng):
+                                    return
+                            elif op == "set_arg_bounds":
+                                k = str(rng.choice(m.opt_arg))
+                                bd = b[k]
+                                lo, hi = float(bd[0]), float(bd[1]) if np.isfinite(bd[1]) else float(bd[0]) + 3.0
+                                cur = float(getattr(m, k))
+                                nb = [lo + 0.55 * (hi - lo), hi] if cur < lo + 0.5 * (hi - lo) else [lo, lo + 0.45 * (hi - lo)]
+                                nb = nb + [bd[2]] if len(bd) > 2 else nb
+                                log_ops.append("set_arg_bounds(%s=%r)" % (k, nb))
+                                m.set_arg_bounds(**{k: nb})                 # present value outside: reset to a default inside
+                                compare(m, op)
+                                log_ops.append("set_arg_bounds(%s=%r)" % (k, list(bd)))
+                                m.set_arg_bounds(**{k: bd})
+                            else:
+                                src = fresh_like(gs, m)
+                                for k in m.opt_arg:                          # data from other optional arguments
+                                    bd = b[k]
+                                    lo, hi = float(bd[0]), float(bd[1]) if np.isfinite(bd[1]) else float(bd[0]) + 3.0
+                                    try:
+                                        setattr(src, k, lo + (hi - lo) * float(rng.uniform(0.2, 0.8)))
+                                    except ValueError:
+                                        pass
+                                xs = np.linspace(0.05, 3.0, 25) * float(src.len_rescaled)
+                                ys = np.asarray(src.variogram(xs), dtype=float)
+                                log_ops.append("fit_variogram(25 lags of %r)" % ({k: getattr(src, k) for k in src.opt_arg},))
+                                with warnings.catch_warnings():
+                                    warnings.simplefilter("ignore")
+                                    m.fit_variogram(xs, ys, nugget=False)
+                        except (ValueError, RuntimeError) as e:          # rejected change / failed fit: the object is dropped
+                            log_ops.append("-> %s" % type(e).__name__)
+                            return
+                        if any(o.startswith("dim = ") for o in log_ops) and stale_bounds(ctx, gs, m, name, cfg, list(log_ops), rng):
+                            return                                  # a later setter accepted a value the stale bounds allow
+                        if not compare(m, op):
+                            return
+                guarded(ctx, stage, name, cfg if "latlon" not in cfg else dict(dim=3), ("history",), case, one)
+
+
 def probe_cor(ctx, gs, rng, thorough):
     """correlation is 1 at lag 0, finite, and never above 1 in magnitude (1e-12 for rounding) on a lag grid that
     includes lags from 1e-16 len_scale on"""
@@ -572,6 +874,17 @@ def corpus(ctx, gs):
             "explicit point set: %s" % (v / s0q, wit), dict(relative_value=v / s0q, witness=wit))
     else:
         ctx.count(("corpus", "Cubic:3+time:warns"), hist=dict(stage="corpus"))
+    # 5. OPEN (shared with C14): the dim setter keeps the dimension-dependent default bounds of the construction dimension
+    m, _, _ = make(gs, "TPLSimple", dim=1)
+    with warnings.catch_warnings():
+        warnings.simplefilter("ignore")
+        m.dim = 3
+    g = np.stack(np.meshgrid(*[np.arange(4) * 0.3] * 3, indexing="ij"), 0).reshape(3, -1).T
+    ev = min_eig(cov_matrix_spatial(m, g))
+    lo = float(m.default_opt_arg_bounds()["nu"][0])
+    chk(float(m.nu) >= lo or ev >= -EIG_TOL * len(g), KEY_STALE_BOUNDS,
+        "TPLSimple(dim=1); m.dim = 3 keeps nu = %r (class bound for dim 3: nu >= %r) without error: 4x4x4 lattice (spacing 0.3) min eigenvalue %r" % (
+            float(m.nu), lo, ev), dict(cls="TPLSimple", ops=["dim = 3"], nu=float(m.nu), min_eig=ev))
     # 4. OPEN: exp_int's inc_gamma recursion is as deep as 2 hurst / alpha (RecursionError near 1000)
     try:
         m, _, _ = make(gs, "TPLStable", dim=1, alpha=0.002, hurst=0.9991)
@@ -720,12 +1033,14 @@ def probe_sphere(ctx, gs, rng, thorough):
                         # the two lags agree to ~1e-15 relative of the diameter; the covariance is Lipschitz with
                         # constant <= ~10 var / len_rescaled at these scales, except next to r = 0 for rough models
                         lag_err = np.abs(2 * gsc * np.sin(zeta / (2 * gsc)) - D[i, j])
-                        if np.max(lag_err) > 1e-12 * gsc:
+                        if np.max(lag_err) > 1e-12 * gsc and ("yl", name) not in ctx.nontrivial:
+                            ctx.nontrivial.add(("yl", name))
                             ctx.violation("probe: Yadrenko lag equals the chord of the embedded points",
                                           "%s latlon: |2 R sin(zeta / 2R) - |p - q|| = %r" % (name, float(np.max(lag_err))),
                                           dict(probe="yadrenko-lag", cls=name, params=p, model=kw), key="yadrenko-lag:" + name)
                         far = D[i, j] > 1e-6 * gsc
-                        if np.any(np.abs(cy - ce)[far] > 1e-7 * m.var):
+                        if np.any(np.abs(cy - ce)[far] > 1e-7 * m.var) and ("yc", name) not in ctx.nontrivial:
+                            ctx.nontrivial.add(("yc", name))
                             ctx.violation("probe: cov_yadrenko equals covariance of the chordal distance",
                                           "%s latlon: max difference %r" % (name, float(np.max(np.abs(cy - ce)[far]))),
                                           dict(probe="yadrenko-cov", cls=name, params=p, model=kw), key="yadrenko-cov:" + name)
